@@ -623,6 +623,7 @@ ProcStep(S, a, i) ==
      ELSE CASE h = "answer" -> Done(S0, [none |-> FALSE, m |-> ans(2001)])
             [] h = "raise"  -> Done(S0, [none |-> FALSE, m |-> ans(5012)])
             [] h = "slow"   -> [S0 EXCEPT !.tapp[a].procs[i].st = "sleep", !.tapp[a].procs[i].wake = S.now + 3]
+            [] h = "slow7"  -> [S0 EXCEPT !.tapp[a].procs[i].st = "sleep", !.tapp[a].procs[i].wake = S.now + 7]   \* longer than the 5 s slot wait
             [] OTHER        -> Done(S0, IF "F14b" \in Pinned THEN <<>> ELSE [none |-> TRUE, m |-> ans(0)])     \* handler returns None
 
 \* _wait_for_resp_msg: gives the slot back, sends the answer; runs until its queue is empty
